@@ -434,6 +434,12 @@ pub fn run(ctx: &Ctx) {
             }
             let vals = vec![Value::Bytes(payload), Value::Bytes(vec![1, 0, 2]), Value::Bytes(vec![])];
             l.class("very-long-frame-sequence");
+            // the encoder on the very long message (byte-string route and element-by-element route), then the decoders
+            check_frame(&Shape::ByteBuf, &vals[0], l)?;
+            if let Value::Bytes(b) = &vals[0] {
+                let (s, v) = raw(b);
+                check_frame(&s, &v, l)?;
+            }
             check_sequence(&Shape::ByteBuf, &vals, i % 2 == 0, &[7, 7], l)
         });
     }
